@@ -5,6 +5,10 @@ HERE = os.path.dirname(os.path.dirname(os.path.abspath(__file__)))
 
 # id -> (technique, level text, level note, design section)
 CHECKS = {
+ "C10": ("exhaustive enumeration of small helper reference graphs (all 3-node GROUP / FUNCTION / UNIT graphs x content x users) and of every usage position x {used, unused, dangling}; invariant oracle on module snapshots before / after / after-twice",
+         "All SUB_GROUP relations on 3 GROUPs x per-group content x ROOT x USER_RIGHTS subsets, all SUB_FUNCTION relations on 3 FUNCTIONs x content x FUNCTION_LIST users, all REF_UNIT functions on 3 UNITs x used subsets, and every usage position of COMPU_METHOD, conversion tables, UNIT, RECORD_LAYOUT, GROUP and FUNCTION as the only user x {used, unused, dangling} x target kind. After cleanup: only helper kinds removed, objects and typedefs equal modulo previously dangling references, no remaining element refers to a removed one, a check()-clean file stays clean, a second cleanup changes nothing (text), the cleaned file reloads equal.",
+         "graphs with more than three helpers of one kind are not explored; completeness of removal is asserted only through idempotence",
+         "DESIGN.md 5/C10"),
  "C08": ("explicit enumeration of all overlap assignments per namespace (cells name x side x kind x content), bfs over merge histories with state deduplication, algebraic cases; relational oracle on module snapshots",
          "For each of 12 namespaces every assignment of {absent, (kind, content)} to the cells (name, side) over the name sets {X,Y} and {X, X.MERGE, X.MERGE2 | X.MERGE.MERGE} (all kinds of the shared namespaces), the reference-site space of C09, merge empty / clone / into empty from 8 start modules and a breadth-first search over merge histories (depth 3, thorough 4) from a menu of 6 modules with states deduplicated on module content. After every merge: A's elements unchanged (GROUP/FUNCTION may gain members), every element of B represented under an observed renaming that is fresh with respect to A, identical elements shared and only those, no duplicate names per namespace, nothing invented, and the merged file reloads to an equal model.",
          "USER_RIGHTS, SYSTEM_CONSTANT, MEMORY_LAYOUT and the singletons are all-or-nothing by design; element content is represented by two variants per kind",
